@@ -50,7 +50,7 @@ def strategy_case(draw):
         case["zmax"] = 2.0
         case["big"] = True
         case["high_rank"] = True
-    case["scale_x"] = draw(st.sampled_from([0, 0, 0, 0, -6, -3, 3, 6]))
+    case["scale_x"] = draw(st.sampled_from([0, 0, 0, 0, -6, -3, 3, 6, -170, 170, -250, 250]))
     case["scale_y"] = draw(st.sampled_from([0, 0, 0, 0, -6, -3, 3, 6]))
     if form in ("s/y", "ediv_scalar", "x/s"):
         # x / s also with 0-d tensor scalars of another dtype (int64, float32): they do not promote the float64 TT
